@@ -7,8 +7,9 @@ package h1pipe
 import (
 	"context"
 	"fmt"
-	"os"
+	"github.com/ozontech/file.d/pipeline/doif"
 	"math/rand/v2"
+	"os"
 	"sort"
 	"strconv"
 	"strings"
@@ -48,30 +49,32 @@ type Line struct {
 	ID     int           `json:"id"`
 	Source int           `json:"src"`
 	Stream string        `json:"stream"`
-	Dirs   []string      `json:"dirs,omitempty"` // directive for action i ("", pass, discard, break)
-	Msg    string        `json:"msg,omitempty"`  // join field: "S.." start, "C.." continuation, other = plain
-	Kids   int           `json:"kids,omitempty"` // >0: array field for the split action
-	Drop   bool          `json:"drop,omitempty"` // matched by the real discard action
-	Bad    int           `json:"bad,omitempty"`  // 1 undecodable, 2 empty line
+	Dirs   []string      `json:"dirs,omitempty"`  // directive for action i ("", pass, discard, break)
+	Msg    string        `json:"msg,omitempty"`   // join field: "S.." start, "C.." continuation, other = plain
+	Kids   int           `json:"kids,omitempty"`  // >0: array field for the split action
+	Drop   bool          `json:"drop,omitempty"`  // matched by the real discard action
+	NoSel  bool          `json:"nosel,omitempty"` // the event does not satisfy the join action's selector (match_fields / do_if)
+	Bad    int           `json:"bad,omitempty"`   // 1 undecodable, 2 empty line
 	Pause  time.Duration `json:"pause,omitempty"`
 }
 
 type ActionCfg struct {
-	Kind string `json:"kind"` // dir | join | split | discard
+	Kind string `json:"kind"`          // dir | join | split | discard
+	Sel  string `json:"sel,omitempty"` // join only: "" every event, "match" match_fields on sel=1, "doif" do_if on sel=1
 }
 
 type Cfg struct {
-	Sim          simrt.Config     `json:"sim"`
-	Pool         string           `json:"pool"`
-	Capacity     int              `json:"capacity"`
-	SingleProc   bool             `json:"single_proc"`
-	EventTimeout time.Duration    `json:"event_timeout"`
-	Readers      [][]Line         `json:"readers"` // per reader goroutine: its lines in read order
-	Actions      []ActionCfg      `json:"actions"`
-	Sink         simsink.Config   `json:"sink"`
-	DLQ          *simsink.Config  `json:"dlq,omitempty"`
-	QuietBound   time.Duration    `json:"quiet_bound"`
-	StopAt       time.Duration    `json:"stop_at,omitempty"` // >0: Pipeline.Stop is called at this simulated instant
+	Sim          simrt.Config    `json:"sim"`
+	Pool         string          `json:"pool"`
+	Capacity     int             `json:"capacity"`
+	SingleProc   bool            `json:"single_proc"`
+	EventTimeout time.Duration   `json:"event_timeout"`
+	Readers      [][]Line        `json:"readers"` // per reader goroutine: its lines in read order
+	Actions      []ActionCfg     `json:"actions"`
+	Sink         simsink.Config  `json:"sink"`
+	DLQ          *simsink.Config `json:"dlq,omitempty"`
+	QuietBound   time.Duration   `json:"quiet_bound"`
+	StopAt       time.Duration   `json:"stop_at,omitempty"` // >0: Pipeline.Stop is called at this simulated instant
 }
 
 func (c *Cfg) SimCfg() *simrt.Config { return &c.Sim }
@@ -127,13 +130,18 @@ func (h *H) Gen(rng *rand.Rand, tier, prop string) core.Cfg {
 				k = "dir" // two multi-line actions in one chain only rarely (known defect, see DESIGN.md)
 			}
 		}
-		c.Actions = append(c.Actions, ActionCfg{Kind: k})
+		ac := ActionCfg{Kind: k}
+		if k == "join" && core.Chance(rng, 0.35) {
+			ac.Sel = core.Pick(rng, "match", "doif")
+		}
+		c.Actions = append(c.Actions, ac)
 	}
-	hasJoin, hasSplit, hasDiscard := false, false, false
+	hasJoin, hasSplit, hasDiscard, hasSel := false, false, false, false
 	for _, a := range c.Actions {
 		switch a.Kind {
 		case "join":
 			hasJoin = true
+			hasSel = hasSel || a.Sel != ""
 		case "split":
 			hasSplit = true
 		case "discard":
@@ -165,6 +173,9 @@ func (h *H) Gen(rng *rand.Rand, tier, prop string) core.Cfg {
 				d = "break"
 			}
 			l.Dirs = append(l.Dirs, d)
+		}
+		if hasSel && core.Chance(rng, 0.3) {
+			l.NoSel = true
 		}
 		if hasJoin {
 			switch {
@@ -331,7 +342,7 @@ type ev struct {
 	held     bool
 	broke    bool // left the action chain through ActionBreak
 	bypassed bool // held by an action while a later event of its stream left the chain through ActionBreak
-	outs     int // Plugin.Out calls of the main sink
+	outs     int  // Plugin.Out calls of the main sink
 	dlqOuts  int
 	sends    []*sendRec
 	gaveUp   bool
@@ -345,37 +356,39 @@ type ev struct {
 }
 
 type stream struct {
-	key       string
-	evs       []*ev
-	frontier  int // first index not finished
+	key           string
+	evs           []*ev
+	frontier      int // first index not finished
 	lastCommitIdx int
 	lastCommitOff int64
 }
 
 type run struct {
-	cfg     *Cfg
-	o       *core.Outcome
-	p       *pipeline.Pipeline
-	byID    map[int]*ev
-	byPtr   map[*pipeline.Event]*ev
-	streams map[string]*stream
-	bound   int
-	maxBound int
-	readersDone int
-	inFlightIn  map[int]*ev // reader -> event whose In call is pending
-	commitsTotal int
-	probes  map[string]int
-	pendingKids map[sinkBatch][]*ev
-	capFreeAt map[int]time.Duration
-	frontierExercised bool
+	cfg                       *Cfg
+	o                         *core.Outcome
+	p                         *pipeline.Pipeline
+	byID                      map[int]*ev
+	byPtr                     map[*pipeline.Event]*ev
+	streams                   map[string]*stream
+	bound                     int
+	maxBound                  int
+	readersDone               int
+	inFlightIn                map[int]*ev // reader -> event whose In call is pending
+	commitsTotal              int
+	probes                    map[string]int
+	pendingKids               map[sinkBatch][]*ev
+	kidParent                 map[*pipeline.Event]*ev // child event of a split -> its parent, fixed when the child reaches the main output
+	parentDoneKidsInDLQ       bool                    // a split parent was committed while children of it were pending in the dead queue
+	capFreeAt                 map[int]time.Duration
+	frontierExercised         bool
 	sawDLQPendingAtMainCommit bool
-	evaluated bool
-	stopped bool
-	nestedHold bool
-	depth map[int]int
-	all []*ev
-	sendsInFlight int
-	maxMainBatchDone int
+	evaluated                 bool
+	stopped                   bool
+	nestedHold                bool
+	depth                     map[int]int
+	all                       []*ev
+	sendsInFlight             int
+	maxMainBatchDone          int
 }
 
 // viol records a violation. Runs in which an action held an event that was
@@ -383,6 +396,18 @@ type run struct {
 // actions in one chain) are tagged: that is a known defect of the processor
 // (the nested call blocks for the next event of the stream in the middle of the
 // outer event's processing) and everything downstream of it is unreliable.
+var debugOn = os.Getenv("VERIF_DEBUG") != ""
+
+func (r *run) dbg(f string, a ...any) {
+	if debugOn {
+		fmt.Printf("H1 step=%d t=%v g=%d: %s\n", simrt.Steps(), simrt.Now().Sub(time.Unix(0, 0)), simrt.CurG(), fmt.Sprintf(f, a...))
+	}
+}
+
+func evStr(e *pipeline.Event) string {
+	return fmt.Sprintf("%p(kind=%d root=%p)", e, pipeline.VerifEventKind(e), e.Root)
+}
+
 func (r *run) viol(prop, sig, f string, a ...any) {
 	if r.nestedHold {
 		sig += "/after-nested-hold"
@@ -398,6 +423,7 @@ func (in *input) Start(pipeline.AnyConfig, *pipeline.InputPluginParams) {}
 func (in *input) Stop()                                                 {}
 
 func (in *input) PassEvent(e *pipeline.Event) bool {
+	in.r.dbg("PassEvent %s", evStr(e))
 	r := in.r
 	idNode := e.Root.Dig("id")
 	if idNode == nil {
@@ -451,6 +477,7 @@ func (r *run) finish(x *ev) {
 }
 
 func (in *input) Commit(e *pipeline.Event) {
+	in.r.dbg("Commit %s", evStr(e))
 	r := in.r
 	x := r.byPtr[e]
 	if x == nil {
@@ -491,6 +518,9 @@ func (in *input) Commit(e *pipeline.Event) {
 			sig = "commit-of-dropped-event"
 		} else if r.cfg.DLQ != nil && (x.dlqOuts > 0 || r.kidInDLQ(x)) {
 			sig += "/routed-via-deadqueue"
+			if pipeline.VerifEventKind(e) == 2 && r.kidInDLQ(x) {
+				r.parentDoneKidsInDLQ = true
+			}
 		}
 		r.viol("C01", sig, "commit of id %d (src %d stream %s offset %d) at step %d, but no output send containing it has returned successfully (sends: %s)", x.line.ID, x.line.Source, x.line.Stream, e.Offset, step, r.sendsStr(x))
 	}
@@ -547,7 +577,7 @@ func (in *input) Commit(e *pipeline.Event) {
 
 func (r *run) kidInDLQ(x *ev) bool { return x.kidsDLQ > 0 }
 
-func (x *ev) offset() int64   { return int64(x.line.ID) * 10 }
+func (x *ev) offset() int64    { return int64(x.line.ID) * 10 }
 func (x *ev) ptrOffset() int64 { return x.offset() }
 
 func (r *run) sendsStr(x *ev) string {
@@ -588,14 +618,22 @@ type sinkBatch struct {
 }
 
 func (r *run) OnOut(sink string, e *pipeline.Event) {
+	r.dbg("OnOut %s %s", sink, evStr(e))
 	if pipeline.VerifEventKind(e) == 1 { // child of a split
-		if n := e.Root.Dig("pid"); n != nil {
-			if par := r.byID[n.AsInt()]; par != nil {
-				if sink == "main" {
-					par.kidsSeen++
-				} else {
-					par.kidsDLQ++
-				}
+		// the parent is looked up once, when the child first reaches the main output: file.d releases
+		// the children's JSON when the parent is finalized, so the tree must not be read later
+		par := r.kidParent[e]
+		if par == nil && sink == "main" {
+			if n := e.Root.Dig("pid"); n != nil {
+				par = r.byID[n.AsInt()]
+				r.kidParent[e] = par
+			}
+		}
+		if par != nil {
+			if sink == "main" {
+				par.kidsSeen++
+			} else {
+				par.kidsDLQ++
 			}
 		}
 		return
@@ -616,14 +654,19 @@ func (r *run) OnOut(sink string, e *pipeline.Event) {
 }
 
 func (r *run) OnSendStart(sink string, batchNo, attempt int, iter, all []*pipeline.Event) {
+	if debugOn {
+		var sb strings.Builder
+		for _, e := range all {
+			sb.WriteString(" " + evStr(e))
+		}
+		r.dbg("OnSendStart %s batch %d attempt %d:%s", sink, batchNo, attempt, sb.String())
+	}
 	for _, e := range all {
 		if pipeline.VerifEventKind(e) == 1 {
 			if attempt == 0 {
-				if n := e.Root.Dig("pid"); n != nil {
-					if par := r.byID[n.AsInt()]; par != nil {
-						k := sinkBatch{sink, batchNo}
-						r.pendingKids[k] = append(r.pendingKids[k], par)
-					}
+				if par := r.kidParent[e]; par != nil {
+					k := sinkBatch{sink, batchNo}
+					r.pendingKids[k] = append(r.pendingKids[k], par)
 				}
 			}
 			continue
@@ -645,6 +688,7 @@ func (r *run) OnSendStart(sink string, batchNo, attempt int, iter, all []*pipeli
 }
 
 func (r *run) OnSendRet(sink string, batchNo, attempt int, failed bool) {
+	r.dbg("OnSendRet %s batch %d attempt %d failed=%v", sink, batchNo, attempt, failed)
 	step := simrt.Steps()
 	r.sendsInFlight--
 	for _, x := range r.all {
@@ -676,6 +720,7 @@ func (r *run) OnSendRet(sink string, batchNo, attempt int, failed bool) {
 }
 
 func (r *run) OnGiveUp(sink string, batchNo int, events []*pipeline.Event) {
+	r.dbg("OnGiveUp %s batch %d", sink, batchNo)
 	r.probes["give-up"]++
 	skip := r.cfg.DLQ == nil || sink != "main"
 	for _, e := range events {
@@ -733,6 +778,7 @@ type wrap struct {
 func (w *wrap) Start(c pipeline.AnyConfig, p *pipeline.ActionPluginParams) { w.inner.Start(c, p) }
 func (w *wrap) Stop()                                                      { w.inner.Stop() }
 func (w *wrap) Do(e *pipeline.Event) pipeline.ActionResult {
+	w.r.dbg("Do action %d (%s) %s", w.idx, w.kind, evStr(e))
 	r := w.r
 	var x *ev
 	if !e.IsTimeoutKind() && pipeline.VerifEventKind(e) != 1 {
@@ -803,6 +849,17 @@ func (r *run) actionInfos() []*pipeline.ActionPluginStaticInfo {
 			switch a.Kind {
 			case "join":
 				js = `{"field":"msg","start":"/^S/","continue":"/^C/"}`
+				switch a.Sel {
+				case "match":
+					info.MatchConditions = pipeline.MatchConditions{{Field: []string{"sel"}, Values: []string{"1"}}}
+					info.MatchMode = pipeline.MatchModeAnd
+				case "doif":
+					ch, err := doif.NewFromMap(map[string]any{"op": "equal", "field": "sel", "values": []any{"1"}})
+					if err != nil {
+						panic(err)
+					}
+					info.DoIfChecker = ch
+				}
 			case "split":
 				js = `{"field":"kids"}`
 			case "discard":
@@ -854,6 +911,9 @@ func lineJSON(l Line) []byte {
 	if l.Drop {
 		sb.WriteString(`,"drop":"1"`)
 	}
+	if !l.NoSel {
+		sb.WriteString(`,"sel":"1"`)
+	}
 	if l.Kids > 0 {
 		sb.WriteString(`,"kids":[`)
 		for k := 0; k < l.Kids; k++ {
@@ -872,7 +932,7 @@ func (h *H) Run(cc core.Cfg, sim *simrt.Sim) *core.Outcome {
 	cfg := cc.(*Cfg)
 	o := &core.Outcome{NonTrivial: map[string]bool{}, Probes: map[string]int{}}
 	r := &run{cfg: cfg, o: o, byID: map[int]*ev{}, byPtr: map[*pipeline.Event]*ev{}, streams: map[string]*stream{}, inFlightIn: map[int]*ev{},
-		depth: map[int]int{}, probes: o.Probes, pendingKids: map[sinkBatch][]*ev{}, maxMainBatchDone: -1}
+		depth: map[int]int{}, probes: o.Probes, pendingKids: map[sinkBatch][]*ev{}, kidParent: map[*pipeline.Event]*ev{}, maxMainBatchDone: -1}
 	for _, lines := range cfg.Readers {
 		for _, l := range lines {
 			x := &ev{line: l, key: fmt.Sprintf("%d/%s", l.Source, l.Stream)}
@@ -975,6 +1035,9 @@ func (h *H) Run(cc core.Cfg, sim *simrt.Sim) *core.Outcome {
 		}
 		if r.nestedHold {
 			sig += "/after-nested-hold"
+		} else if r.parentDoneKidsInDLQ {
+			// the parent's finalization released the children's JSON while they were still queued
+			sig += "/after-split-parent-committed-with-children-in-deadqueue"
 		}
 		o.Violate(prop, sig, "process died: %s", d)
 		if prop != "C04" {
